@@ -57,7 +57,19 @@ func c05Scenario(r *rand.Rand) (*txWorld, *dsTruth, string, error) {
 	confirmedOuts := map[wire.OutPoint]bool{}
 	processed := map[*txInfo]bool{}
 	steps := 4 + r.Intn(10)
+	catchingUp := false
 	for s := 0; s < steps; s++ {
+		if k := r.Intn(100); k < 8 && !catchingUp {
+			w.dropConnection()
+			catchingUp = true
+			fp += "D"
+			continue
+		} else if k < 25 && catchingUp {
+			w.finishSync()
+			catchingUp = false
+			fp += "d"
+			continue
+		}
 		if r.Intn(100) < 70 {
 			t := pool[r.Intn(len(pool))]
 			spentConfirmed := false
@@ -131,6 +143,9 @@ func c05Scenario(r *rand.Rand) (*txWorld, *dsTruth, string, error) {
 			}
 			fp += fmt.Sprintf("B%d", len(in))
 		}
+	}
+	if catchingUp {
+		w.finishSync()
 	}
 	return w, tr, fp, nil
 }
